@@ -522,18 +522,22 @@ func (s *sharedEntryAttributes) getRegularDeletes(deletes []DeleteEntry, aggrega
 			// so if we have an old and a new best cases (not "") and the names are different,
 			// all the old to the deletion list
 			if oldBestCaseName != "" && newBestCaseName != "" && oldBestCaseName != newBestCaseName {
-				// try fetching the case from the childs
-				oldBestCaseEntry, exists := s.childs.GetEntry(oldBestCaseName)
-				if exists {
-					deletes = append(deletes, oldBestCaseEntry)
-				} else {
+				// the elements of the old best case are what has to go, not the container that holds the choice
+				for elemName := range v.cases[oldBestCaseName].elements {
+					// try fetching the element from the childs
+					oldBestCaseEntry, exists := s.childs.GetEntry(elemName)
+					if exists {
+						deletes = append(deletes, oldBestCaseEntry)
+						continue
+					}
 					// it might be that the child is not loaded into the tree, but just considered from the treecontext cache for the choice/case resolution
 					// if so, we create and return the DeleteEntryImpl struct
 					path, err := s.SdcpbPath()
 					if err != nil {
 						return nil, err
 					}
-					deletes = append(deletes, NewDeleteEntryImpl(path, append(s.Path(), oldBestCaseName)))
+					elemPath := &sdcpb.Path{Origin: path.GetOrigin(), Target: path.GetTarget(), Elem: append(slices.Clone(path.GetElem()), &sdcpb.PathElem{Name: elemName})}
+					deletes = append(deletes, NewDeleteEntryImpl(elemPath, append(s.Path(), elemName)))
 				}
 			}
 		}
